@@ -145,6 +145,8 @@ func vp_C09_frame() {
 	extra := []PDU{
 		vpMkEvent(ver, "$topic:x", s.room, vpCarol, "m.room.topic", vpStrPtr(""), vpJObj("topic", "t")),
 		vpMkEvent(ver, "$md:x", s.room, "@d:x", spec.MRoomMember, vpStrPtr("@d:x"), vpJObj("membership", vpChoice("dave", spec.Join, spec.Ban))),
+		// a different user whose ID differs from the sender's only in letter case (user IDs are case-sensitive)
+		vpMkEvent(ver, "$mB:x", s.room, "@B:x", spec.MRoomMember, vpStrPtr("@B:x"), vpJObj("membership", vpChoice("upper_case_bob", spec.Leave, spec.Ban))),
 	}
 	for _, x := range extra {
 		_ = p2.AddEvent(x)
